@@ -325,3 +325,35 @@ Proof.
   cbv zeta. split; [vm_compute; reflexivity|]. split; [|vm_compute; split; reflexivity].
   repeat constructor; cbn; tauto.
 Qed.
+
+(* ------------------------------------------------------------ non-vacuity of the one-step statements *)
+Definition ex_gr_llgr : list hevent :=
+  [HUp [V4; V6] (Some ([V4; V6], 120, false)) (Some [(V4, 3600); (V6, 3600)]);
+   HAnnounce V4 0 false false; HAnnounce V4 1 true false; HAnnounce V6 0 false false; HDown RsTcp].
+
+Example ex_restarting_with_timer :
+  let h := h_run h0 ex_gr_llgr in
+  is_peer_restarting (h_gr h) = true /\ h_rtimer h = true /\ length (h_rib h) = 3%nat
+  /\ h_rtimer (h_step h HFailedConnect) = true
+  /\ start_llgr (snd (gr_step (h_gr h) GTimerExpired)) = Some [(V4, 3600); (V6, 3600)]
+  /\ length (h_rib (h_step h HRestartTimer)) = 2%nat
+  /\ h_ltimers (h_step h HRestartTimer) = [V4; V6].
+Proof. vm_compute. repeat split; reflexivity. Qed.
+
+Example ex_eor_purges_only_stale :
+  let h := h_run h0 (ex_gr_llgr ++ [HUp [V4; V6] (Some ([V4; V6], 120, false)) None; HAnnounce V4 2 false false]) in
+  h_gr h = GPeerReconnected [V4; V6] false /\ length (h_rib h) = 4%nat
+  /\ map r_id (h_rib (h_step h (HEor V4))) = [0; 2] /\ map r_fam (h_rib (h_step h (HEor V4))) = [V6; V4]
+  /\ stale_ok h = true /\ stale_ok (h_step h (HEor V4)) = true.
+Proof. vm_compute. repeat split; reflexivity. Qed.
+
+Example ex_plain_session_leaves_nothing :
+  let h := h_run h0 [HUp [V4; V6] None None; HAnnounce V4 0 false false; HAnnounce V6 1 false false] in
+  length (h_rib h) = 2%nat /\ h_rib (h_step h (HDown RsRemoteHard)) = [] /\ h_rib (h_step h (HDown RsTcp)) = [].
+Proof. vm_compute. repeat split; reflexivity. Qed.
+
+Example ex_helper_entry :
+  is_peer_restarting (fst (gr_step GIdle (GSessionDropped (Some ([V4], 120)) None))) = true
+  /\ is_peer_restarting (fst (gr_step GIdle (GSessionDropped None (Some [(V4, 3600)])))) = true
+  /\ is_peer_restarting (fst (gr_step GIdle (GSessionDropped None None))) = false.
+Proof. vm_compute. repeat split; reflexivity. Qed.
